@@ -386,7 +386,7 @@ template AssignA(n) {
     u2.in <== mid;
     u2.out === 0;
 }
-\n// Joins with three and more incoming paths and several variables merged there (the order of\n// the phi statements of a block and of the children in the dominator tree comes from hash sets).\n// Two findings of one rule at one location (the parameter list).\nfunction twopar(p, q, r) {\n    return 1;\n}\n\nfunction chain(n) {\n    var a = 0;\n    var b = 0;\n    var c = 0;\n    if (n == 1) {\n        a = 1;\n    } else if (n == 2) {\n        b = 2;\n    } else if (n == 3) {\n        c = 3;\n    } else {\n        a = 4;\n        c = 4;\n    }\n    return a * 100 + b * 10 + c;\n}\n\ntemplate Chain(n, m) {\n    signal input in;\n    signal output out;\n    var a = 0;\n    var b = 0;\n    var c = 0;\n    if (n > 1) {\n        a = 1;\n        if (m > 2) {\n            b = 2;\n            if (n > m) {\n                c = 3;\n            }\n        }\n    }\n    out <== in * (a + b + c + chain(n));\n}\n";
+\n// Joins with three and more incoming paths and several variables merged there (the order of\n// the phi statements of a block and of the children in the dominator tree comes from hash sets).\n// The same signal name declared in two sibling scopes, both unused.\ntemplate Scopes(n) {\n    signal input in;\n    signal output out;\n    if (n > 1) {\n        signal tmp[2];\n    } else {\n        signal tmp;\n    }\n    out <== in;\n}\n\n// Two findings of one rule at one location (the parameter list).\nfunction twopar(p, q, r) {\n    return 1;\n}\n\nfunction chain(n) {\n    var a = 0;\n    var b = 0;\n    var c = 0;\n    if (n == 1) {\n        a = 1;\n    } else if (n == 2) {\n        b = 2;\n    } else if (n == 3) {\n        c = 3;\n    } else {\n        a = 4;\n        c = 4;\n    }\n    return a * 100 + b * 10 + c;\n}\n\ntemplate Chain(n, m) {\n    signal input in;\n    signal output out;\n    var a = 0;\n    var b = 0;\n    var c = 0;\n    if (n > 1) {\n        a = 1;\n        if (m > 2) {\n            b = 2;\n            if (n > m) {\n                c = 3;\n            }\n        }\n    }\n    out <== in * (a + b + c + chain(n));\n}\n";
 
 /// (f): the pass corpus under every hash seed, each seed twice.
 pub fn check_pass_corpus(seeds: u64, dir: &Path, case: &Value) -> (Vec<Violation>, u64) {
